@@ -19,7 +19,7 @@ func init() {
 			"R3 dispatch agreement — the first-token set of parseDDL / parseDMLInternal / the query path is included in the guard under which parseStatementInternal routes to it, and the specific entry points reach the same internal productions as ParseStatement. " +
 			"R4 the list entry points hand the generic parseStatements the same production their single-statement sibling calls. " +
 			"Decides: contradictions between a guard and what it guards. Does not decide: acceptance of every sentence of the reference grammar.",
-		Rules: []ruleFn{ruleC08R1, ruleC08R2, ruleC08R3, ruleC08R4, ruleC08R5, ruleC08R6, ruleC08R7, ruleC11R4},
+		Rules: []ruleFn{ruleC08R1, ruleC08R2, ruleC08R3, ruleC08R4, ruleC08R5, ruleC08R6, ruleC08R7, ruleC11R4, ruleC16R3, ruleC08R8},
 	})
 }
 
@@ -755,4 +755,95 @@ func returnedConstBool(ret *ssa.Return) (bool, bool) {
 		return false, false
 	}
 	return constBool(last)
+}
+
+// ruleC08R8: a two-token decision must separate the alternatives. lookaheadSubQuery says "sub-query" as soon as the
+// token after "(" is one of a few kinds; its callers (parenthesised expression, IN list) otherwise read "(" expr. A kind
+// that can also start an expression ("WITH" of the WITH expression) cannot be decided on two tokens: the sub-query
+// production is entered, raises at the third token, and the expression alternative is never tried.
+func ruleC08R8(w *World, r *Report) {
+	const rule = "C08/R8"
+	r.rule(rule, "the kinds on which lookaheadSubQuery answers yes directly after '(' (before consuming anything else) are disjoint from the kinds that can start an expression (first-token set of parseExpr, error recovery off), for every caller that falls back to an expression", 1)
+	tk := w.TKAI()
+	var la, pe *ssa.Function
+	for _, fn := range w.ModFns {
+		if fnPkgPath(fn) != modRoot || fn.Parent() != nil {
+			continue
+		}
+		switch funcName(fn) {
+		case "(*Parser).lookaheadSubQuery":
+			la = fn
+		case "(*Parser).parseExpr":
+			pe = fn
+		}
+	}
+	if la == nil || pe == nil {
+		r.errorf("lookaheadSubQuery / parseExpr not found")
+		return
+	}
+	// the first consumption of the look-ahead (the "(" itself)
+	var firstAdv ssa.Instruction
+	for _, b := range la.Blocks {
+		for _, in := range b.Instrs {
+			if c, ok := in.(*ssa.Call); ok && firstAdv == nil {
+				if cal := c.Call.StaticCallee(); cal != nil && tk.touchesLexer(cal) && cal != tk.lexCl {
+					if b == la.Blocks[0] || la.Blocks[0].Dominates(b) {
+						firstAdv = in
+					}
+				}
+			}
+		}
+	}
+	if firstAdv == nil {
+		r.undecided(rule, "lookaheadSubQuery direct answers", w.pos(la.Pos()), "no first consumption found")
+		return
+	}
+	ci := &ctxInfo{key: tkCtx{fn: la, entry: kTop().Key(), clean: true}, fn: la, entry: kTop(), consts: map[int]string{}}
+	res, tail := tk.flowAfter(ci, firstAdv, newTState(kTop()))
+	var direct KSet
+	collect := func(rs *retState) {
+		if rs.st.consumed || len(rs.ret.Results) != 1 {
+			return
+		}
+		if cb, ok := returnedConstBool(rs.ret); ok && !cb {
+			return
+		}
+		direct = direct.Join(rs.st.cur)
+	}
+	for _, rs := range res.ret {
+		collect(rs)
+	}
+	_ = tail
+	atoms, fin := direct.Finite()
+	if !fin || len(atoms) == 0 {
+		r.undecided(rule, "lookaheadSubQuery direct answers", w.pos(la.Pos()), fmt.Sprintf("cannot enumerate the kinds answered yes directly after '(' (%s)", direct))
+		return
+	}
+	sum := tk.summaryMode(pe, kTop(), nil, false, true)
+	construct := "lookaheadSubQuery direct answers vs expressions"
+	var clash []string
+	for _, a := range atoms {
+		if !sum.first.Excludes(a) {
+			clash = append(clash, a)
+		}
+	}
+	ncallers := 0
+	for _, cs := range w.callersOf(la) {
+		// callers that can fall back to an expression
+		for _, b := range cs.Parent().Blocks {
+			for _, in := range b.Instrs {
+				if c, ok := in.(*ssa.Call); ok && c.Call.StaticCallee() == pe {
+					ncallers++
+				}
+			}
+		}
+	}
+	switch {
+	case ncallers == 0:
+		r.ok(rule, construct, w.pos(la.Pos()), "no caller falls back to an expression")
+	case len(clash) > 0:
+		r.bad(rule, construct, w.pos(la.Pos()), fmt.Sprintf("'(' followed by %v is answered \"sub-query\" at once, but %v can also start an expression: the parenthesised expression / IN list that begins with it is sent to the query parser and rejected", atoms, clash))
+	default:
+		r.ok(rule, construct, w.pos(la.Pos()), fmt.Sprintf("direct answers %v; none can start an expression", atoms))
+	}
 }
